@@ -14,7 +14,13 @@ class VectorialAsofDateParameterNodeAtInstant(VectorialParameterNodeAtInstant):
     @staticmethod
     def build_from_node(node):
         VectorialParameterNodeAtInstant.check_node_vectorisable(node)
-        subnodes_name = node._children.keys()
+        # The date lookup relies on the order of the subnodes: the ``before_X``
+        # one first, then the ``after_X`` ones in chronological order. Do not
+        # depend on the order the children happened to be loaded in.
+        subnodes_name = sorted(
+            node._children.keys(),
+            key=lambda name: (not name.startswith("before"), name),
+        )
         # Recursively vectorize the children of the node
         vectorial_subnodes = tuple(
             [
